@@ -82,17 +82,35 @@ class _SizerLoop(heap.MapLoopSpec):
         t = self._t(env)
         return SymNum(z3.Select(t.cols['quantity'], k) if 'quantity' in t.cols else z3.RealVal(0))
 
+    # The per-asset fact is kept OPAQUE in the invariant (an uninterpreted predicate of the asset and its quantity) and
+    # revealed - by an instance of its definition - only at the kernel key and where a final clause needs it, so that
+    # the path conditions of all structural obligations stay free of the heavy arithmetic.
+    def definition(self, q, k):
+        items = self.clause(q, SymKey(k))
+        return z3.And(z3.Not(PNANF(lift(self.dt), k)), *[(f.t if isinstance(f, SymBool) else f) for _, f in items])
+
+    def reveal(self, q, k):
+        with heap._quiet():
+            return SIZED(k, lift(q)) == self.definition(q, k)
+
     def pd(self, L, env, k):
-        items = self.clause(self._q(env, k), SymKey(k))
-        return [(n, f.t if isinstance(f, SymBool) else f) for n, f in items] + \
-               [('price-was-available', z3.Not(PNANF(lift(self.dt), k)))]
+        return [('processed-asset-is-sized-as-documented', SIZED(k, lift(self._q(env, k))))]
 
     def kernel(self, L, env, k):
+        q = self._q(env, k)
         if self.kclause is None:
-            return self.pd(L, env, k)
-        items = self.kclause(self._q(env, k), SymKey(k), env)
-        return [(it[0], it[1].t if isinstance(it[1], SymBool) else it[1]) + tuple(it[2:]) for it in items] + \
-               [('price-was-available', z3.Not(PNANF(lift(self.dt), k)))]
+            items = self.clause(q, SymKey(k))
+        else:
+            items = self.kclause(q, SymKey(k), env)
+        out = [(it[0], it[1].t if isinstance(it[1], SymBool) else it[1]) + tuple(it[2:]) for it in items]
+        out.append(('price-was-available', z3.Not(PNANF(lift(self.dt), k))))
+        ctx().assume(self.reveal(q, k))          # definition instance at the kernel key
+        # (with a staged kernel, the documented functional equality - the body of the definition - is the conclusion
+        #  of its obligation 'quantity-is-the-documented-function-of-allocation-fee-and-price')
+        return out
+
+
+SIZED = z3.Function('SIZED_AS_DOCUMENTED', K, R, B)
 
 
 def _weights(c, signed):
@@ -113,7 +131,7 @@ def _sum(c, wts, f=lambda x: x):
 DW_LOOP = 'DollarWeightedCashBufferedOrderSizer.__call__#for sorted(normalised_weights.items())#0'
 
 
-@harness('DollarWeightedCashBufferedOrderSizer.__call__', props=['C10', 'C08', 'C07'], layer='L3',
+@harness('DollarWeightedCashBufferedOrderSizer.__call__', props=['C10'], also=['C09', 'C08', 'C07'], layer='L3',
          functions=['DollarWeightedCashBufferedOrderSizer.__init__', 'DollarWeightedCashBufferedOrderSizer._check_set_cash_buffer',
                     'DollarWeightedCashBufferedOrderSizer._obtain_broker_portfolio_total_equity',
                     'DollarWeightedCashBufferedOrderSizer._normalise_weights', 'DollarWeightedCashBufferedOrderSizer.__call__',
@@ -185,14 +203,17 @@ def dw_call(c):
             for n, f in (clause_zero(VAL(res, k, 'quantity'), k) if S == 0 else clause(VAL(res, k, 'quantity'), k)):
                 c.ob('#for sorted(normalised_weights.items())#0:kernel/' + n, f)
         c.region = reg
-        c.ob('target-has-exactly-the-weighted-assets', set(res) == set(wts))
+        c.ob('target-has-exactly-the-weighted-assets', set(res) == set(wts), props=['C10', 'C09'])
         if S > EPS:
             total = sum(VAL(res, k, 'quantity') * price_of(c, dt, k) for k in wts)
             c.ob('whole-target-costs-at-most-buffered-equity', LE(total, C))
         c.ob('prices-read-at-dt', all(q[0] == dt for q in dlog), props=['C07'])
         return
+    c.assume(spec.reveal(VAL(res, w, 'quantity'), liftk(w)))      # definition instance at the witness
     c.ob('negative-weight-rejected', IMPLIES(HAS(wts, w), GE(VAL(wts, w), 0)))
-    c.ob('target-has-exactly-the-weighted-assets', IFF(HAS(res, w), HAS(wts, w)))
+    c.ob('target-has-exactly-the-weighted-assets', IFF(HAS(res, w), HAS(wts, w)), props=['C10', 'C09'])
+    if not c.region:
+        c.ob('zero-weight-gives-zero-quantity', IMPLIES(AND(HAS(wts, w), EQ(VAL(wts, w), 0)), EQ(VAL(res, w, 'quantity'), 0)), props=['C10', 'C09'])
     c.ob('prices-read-at-dt', AND(*[EQ(q[0], dt) for q in dlog]), props=['C07'])
     if state.get('regime') == 'normalised':
         # Lean budget: (forall a in D, q a * p a <= C * (w a / S)), S = sum w > 0  =>  sum q*p <= C
@@ -282,12 +303,14 @@ def dw_rejections(c):
         add_universal(lambda k: z3.Implies(z3.And(z3.Select(dom, k), z3.Not(PNANF(lift(dt), k))), PRICEF(lift(dt), k) > 0))
         try:
             try:
-                sizer(dt, wts)
+                res = sizer(dt, wts)
                 out = 'ok'
             except ValueError:
                 out = 'ValueError'
         finally:
             heap.LOOPSPEC.pop(DW_LOOP, None)
+        if out == 'ok':
+            c.assume(spec.reveal(VAL(res, n, 'quantity'), liftk(n)))      # definition instance at the asset without a price
         c.ob('nan-price-rejected-with-ValueError', out == 'ValueError')
     else:
         c.assume(all(v >= 0 for v in wts.values()))
@@ -328,7 +351,7 @@ def ls_property(q, wk, A, D, p, r):
             ('gross-cost-within-the-allocation-plus-fee', LE(ABS(q) * p, (1 + r) * ABS(A)))]
 
 
-@harness('LongShort.arithmetic', props=['C11', 'C08'], layer='L3', functions=[])
+@harness('LongShort.arithmetic', props=['C11'], layer='L3', functions=[])
 def ls_arithmetic(c):
     """code-independent: for all reals A (allocation, sign of the weight), p > 0, 0 <= r <= 1, the documented function
        q = trunc(trunc0(D)/p), D = A - r|A| satisfies every per-asset clause of C11"""
@@ -347,7 +370,7 @@ def ls_arithmetic(c):
 LS_LOOP = 'LongShortLeveragedOrderSizer.__call__#for sorted(normalised_weights.items())#0'
 
 
-@harness('LongShortLeveragedOrderSizer.__call__', props=['C11', 'C08', 'C07'], layer='L3',
+@harness('LongShortLeveragedOrderSizer.__call__', props=['C11'], also=['C09', 'C08', 'C07'], layer='L3',
          functions=['LongShortLeveragedOrderSizer.__init__', 'LongShortLeveragedOrderSizer._check_set_gross_leverage',
                     'LongShortLeveragedOrderSizer._obtain_broker_portfolio_total_equity',
                     'LongShortLeveragedOrderSizer._normalise_weights', 'LongShortLeveragedOrderSizer.__call__',
@@ -467,14 +490,18 @@ def ls_call(c):
             for n, f in (clause_zero(VAL(res, k, 'quantity'), k) if G == 0 else clause(VAL(res, k, 'quantity'), k)):
                 c.ob('#for sorted(normalised_weights.items())#0:kernel/' + n, f)
         c.region = reg
-        c.ob('target-has-exactly-the-weighted-assets', set(res) == set(wts))
+        c.ob('target-has-exactly-the-weighted-assets', set(res) == set(wts), props=['C11', 'C09'])
         if G > EPS and r <= 1:
             total = sum(abs(VAL(res, k, 'quantity')) * price_of(c, dt, k) for k in wts)
             c.ob('gross-target-within-leverage-times-equity', LE(total, L * E * (1 + r)))
         c.ob('prices-read-at-dt', all(q[0] == dt for q in dlog), props=['C07'])
         return
-    c.ob('target-has-exactly-the-weighted-assets', IFF(HAS(res, w), HAS(wts, w)))
+    c.assume(spec.reveal(VAL(res, w, 'quantity'), liftk(w)))      # definition instance at the witness
+    c.ob('target-has-exactly-the-weighted-assets', IFF(HAS(res, w), HAS(wts, w)), props=['C11', 'C09'])
     c.ob('prices-read-at-dt', AND(*[EQ(q[0], dt) for q in dlog]), props=['C07'])
+    if not c.region:
+        c.ob('zero-weight-gives-zero-quantity', IMPLIES(AND(HAS(wts, w), EQ(VAL(wts, w), 0)), EQ(VAL(res, w, 'quantity'), 0)), props=['C11', 'C09'],
+             extra=[EQ(alloc(w), alloc_def(w))] if state.get('regime') != 'zero' else [])
     if state.get('regime') == 'normalised' and not c.region:
         # Lean gross: (forall a in D, |q a| * p a <= B * (|w a| / G)), G = sum |w| > 0  =>  sum |q|*p <= B,  B = L*E
         lemma('gross')
@@ -523,12 +550,14 @@ def ls_rejections(c):
         add_universal(lambda k: z3.Implies(z3.And(z3.Select(dom, k), z3.Not(PNANF(lift(dt), k))), PRICEF(lift(dt), k) > 0))
         try:
             try:
-                sizer(dt, wts)
+                res = sizer(dt, wts)
                 out = 'ok'
             except ValueError:
                 out = 'ValueError'
         finally:
             heap.LOOPSPEC.pop(LS_LOOP, None)
+        if out == 'ok':
+            c.assume(spec.reveal(VAL(res, n, 'quantity'), liftk(n)))      # definition instance at the asset without a price
         c.ob('nan-price-rejected-with-ValueError', out == 'ValueError')
     else:
         has_nan = any(price_of_raw(c, dlog, sizer, dt, k) for k in wts)
